@@ -696,7 +696,7 @@ fn main() {
     let o = new { inner: new { n: 1.5 } };
     o.inner.n «aop:float|+=» «asg:float|1.0»;
     o.inner = «asg:{n:float}|new { n: 0.0 }»;
-    let i = «ty:int|grid[«mut:operand|0¦"0"»][0].v»;
+    let i = «ty:int|grid[«idx:int|0»][0].v»;
     println(grid, fl, bs, opts, o, i);
 }
 `},
